@@ -40,6 +40,7 @@ ASSUMPTIONS = [
     'Flags of results for NaN/infinite operands are not checked.',
 ]
 EXHAUSTIVE = {'quick': True, 'thorough': True}
+MAXTASKS = 6      # recycle workers: gmpy2 leaks a little per context switch, which adds up over 10^8 roundings
 FLOORS = {'tie': 0.01, 'overflow': 0.01, 'special': 0.005, 'nondyadic': 0.05, 'raises': 0.0005}
 
 
@@ -76,7 +77,7 @@ def format_space(tier):
     """List of (kind, args, variants) where variants is a list of kwargs dicts (without rm)."""
     T = tier == 'thorough'
     out = []
-    P = range(1, 9 if T else 5)
+    P = range(1, 7 if T else 5)
     # --- MPFloat
     for p in P:
         out.append(('mp', (p,), _float_opts(False)))
@@ -85,7 +86,7 @@ def format_space(tier):
         for emin in ((-3, -2, 0, 1, 5) if T else (-2, 0, 1)):
             out.append(('mps', (p, emin), _float_opts(False)))
     # --- MPBFloat
-    for p in (range(1, 7) if T else range(1, 5)):
+    for p in (range(1, 6) if T else range(1, 5)):
         for emin in ((-2, 0) if not T else (-3, 0, 2)):
             for span in ((1, 3) if not T else (0, 1, 2, 4)):
                 emax = emin + span
@@ -105,14 +106,14 @@ def format_space(tier):
                     vs.append(dict(overflow='SATURATE', neg_maxval=-pow2(emax - 1) if span >= 1 else -mv))
                     out.append(('mpb', (p, emin, mv), vs))
     # --- EFloat / IEEE
-    NB = range(1, 10 if T else 7)
+    NB = range(1, 9 if T else 7)
     for nbits in NB:
         for es in range(0, nbits):
             if not T and nbits == 6 and es not in (2, 3):
                 continue
             for nk in (0, 1, 2, 3):
                 for inf in (False, True):
-                    for eo in ((-2, 0, 3) if nbits <= (6 if T else 4) else (0,)):
+                    for eo in ((-2, 0, 3) if nbits <= (5 if T else 4) else (0,)):
                         vs = []
                         for ov in ('OVERFLOW', 'SATURATE', 'ASSERT'):
                             vs.append(dict(overflow=ov))
@@ -300,7 +301,7 @@ def run_format(res: Result, kind, args, variants, tier):
             label = [kind, list(args), {k: (show(v) if not isinstance(v, (bool, int)) else v) for k, v in kw.items()}]
             res.count('contexts')
             if ops_cache is None:
-                ops_cache = F.breakpoint_operands(m, max_points=(300 if T else 120))
+                ops_cache = F.breakpoint_operands(m, max_points=(160 if T else 120))
             # finite non-zero operands
             for a in ops_cache:
                 for q in (a, -a):
